@@ -102,9 +102,18 @@ class Session:
             self.alarm_events.append((data["alid"].get(), data["code"].get()))
 
     def wit(self, **kw):
-        return {"config": self.cfg, "history": self.hist[-14:], "host_comm": self.host.communication_state.current.name,
-                "equipment_comm": self.eq.communication_state.current.name, "host_link": self.host.protocol.connection_state.current.name,
-                "equipment_link": self.eq.protocol.connection_state.current.name, **kw}
+        # states first: logs may be truncated
+        return {"host_comm": self.host.communication_state.current.name, "equipment_comm": self.eq.communication_state.current.name,
+                "host_link": self.host.protocol.connection_state.current.name,
+                "equipment_link": self.eq.protocol.connection_state.current.name,
+                "pipes": {"host": [self.hp.enabled, self.hp.link_up], "equipment": [self.ep.enabled, self.ep.link_up],
+                          "link_connected": self.link.connected, "link_queue": len(self.link.queue), "link_error": self.link.error,
+                          "link_trace": [w for _, w in self.link.trace[-4:]]},
+                "timers": [f"{getattr(t.function, '__qualname__', t.function)}" for t in vtime.pending()][:8],
+                "handler_errors": {"host": self.hp.handler_errors[-3:], "equipment": self.ep.handler_errors[-3:]},
+                "pipe_events": {"host": [k for _, k in self.hp.events[-8:]], "equipment": [k for _, k in self.ep.events[-8:]]},
+                "last_frames": {"host": [repr(f)[:60] for f in self.hp.frames()[-4:]], "equipment": [repr(f)[:60] for f in self.ep.frames()[-4:]]},
+                **kw, "config": self.cfg, "history": self.hist[-14:]}
 
     def violation(self, mech, **kw):
         self.ctx.violation(mech, self.wit(**kw))
@@ -115,8 +124,25 @@ class Session:
         return (self.hp.activity, self.ep.activity, self.link.bytes_forwarded, len(self.link.queue))
 
     def idle(self, timeout=0.3):
-        return self.hp.inbox_empty() and self.ep.inbox_empty() and not self.link.queue and \
-            stuck.wait_idle(self.activity, timeout=timeout, settle=0.006, samples=5)
+        """Nothing moves: inboxes and link queue empty, every secsgem thread parked, counters stable - and the link's own
+        scheduler thread (a harness thread, invisible to the stack sampler) completed whole iterations meanwhile without
+        finding anything to do, so 'nothing moves' cannot be the scheduler being starved or in the middle of an action."""
+        link = self.link
+        t0 = link.ticks
+        state0 = (link.connected, link.connections, self.hp.link_up, self.ep.link_up)
+        if not (self.hp.inbox_empty() and self.ep.inbox_empty() and not link.queue and
+                stuck.wait_idle(self.activity, timeout=timeout, settle=0.006, samples=5)):
+            return False
+        end = time.monotonic() + 1.0
+        while link.ticks < t0 + 3 and link.error is None and time.monotonic() < end:
+            time.sleep(0.001)
+        if link.error is not None or link.ticks < t0 + 3:
+            return False
+        # a pending transport-level step (one side up, the other not; both enabled but not connected) is not idleness
+        hp, ep = self.hp, self.ep
+        if hp.link_up != ep.link_up or (hp.enabled and ep.enabled and not hp.link_up):
+            return False
+        return state0 == (link.connected, link.connections, hp.link_up, ep.link_up) and hp.inbox_empty() and ep.inbox_empty() and not link.queue
 
     def both_communicating(self):
         return self.host.communication_state.current.name == "COMMUNICATING" and self.eq.communication_state.current.name == "COMMUNICATING"
@@ -127,6 +153,10 @@ class Session:
         deadline = time.monotonic() + 20
         fired = 0
         while time.monotonic() < deadline:
+            if self.link.error is not None:
+                self.ctx.unsure(f"harness fault: the link scheduler thread died: {self.link.error[-600:]}")
+                self.bad = True
+                return False
             if self.both_communicating():
                 self.ctx.maximum("max_timer_expiries_until_communicating", fired)
                 return True
@@ -135,8 +165,19 @@ class Session:
                     return True
                 timers = [t for h in (self.host, self.eq) for t in vtime.pending(owner=h.communication_state)]
                 if not timers:
-                    # idle, not communicating, and no retry armed: nothing will ever change
-                    if self.idle(0.3) and not self.both_communicating():
+                    # idle, not communicating, and no retry armed: nothing will ever change - unless a thread sits in a
+                    # *timed* wait (T6 of a select, T3 of a request): then real time decides, up to the watchdog
+                    if any(kind == "timed" for _, kind, _ in stuck.snapshot().values()):
+                        self.ctx.count("convergence.waited_for_a_real_timeout")
+                        if not getattr(self, "_noted_timed", False):
+                            self._noted_timed = True
+                            self.ctx.sample({"waited_for_real_timeout": {"where": where, "states": self.wit(),
+                                             "stacks": {n: st for n, st in stuck.stacks(7).items() if any("wait" in f for f in st[-2:])}}}, cap=8)
+                        time.sleep(0.05)
+                        continue
+                    if self.idle(0.3) and not self.both_communicating() and \
+                            not any(kind == "timed" for _, kind, _ in stuck.snapshot().values()) and \
+                            not [t for h in (self.host, self.eq) for t in vtime.pending(owner=h.communication_state)]:
                         self.violation(f"never-communicating:{where}:idle-with-no-retry-pending", stacks=stuck.stacks(6), timer_expiries=fired)
                         return False
                     continue
@@ -150,7 +191,7 @@ class Session:
             time.sleep(0.002)
         if self.both_communicating():
             return True
-        self.ctx.unsure(f"watchdog: not communicating after 20 s ({where}) but threads are still moving: {self.wit()}")
+        self.ctx.unsure(f"watchdog: not communicating after 20 s ({where}) but the pair never became idle: {self.wit(link_trace=self.link.trace[-8:])}")
         self.bad = True
         return False
 
@@ -391,9 +432,12 @@ class Session:
                 t.cancel()
 
 
-def _session(ctx, cfg, idx):
+def _session(ctx, cfg, idx, inj=None):
     rng = ctx.rng
     s = Session(ctx, *cfg, link_seed=rng.getrandbits(32))
+    injecting = inj is not None and idx % 3 == 0
+    if injecting:
+        inj.begin(s.cfg["link_seed"], p=rng.choice([0.02, 0.06]))
     try:
         s.enable(cfg[1])
         if rng.random() < 0.3:
@@ -426,6 +470,10 @@ def _session(ctx, cfg, idx):
         if idx < 2:
             ctx.sample({"config": s.cfg, "history": s.hist[:12]})
     finally:
+        if injecting:
+            sig, yields, _ = inj.end()
+            ctx.count("yields_injected", yields)
+            ctx.count("sessions.under_yield_injection")
         s.shutdown()
 
 
@@ -435,9 +483,15 @@ def run(ctx):
                for ini in ("ATTEMPT_ONLINE", "ONLINE", "HOST_OFFLINE", "EQUIPMENT_OFFLINE")]
     reps = 6 if ctx.quick else 200
     idx = 0
-    for rep in range(reps):
-        for cfg in configs:
-            idx += 1
-            if ctx.mine(idx):
-                _session(ctx, cfg, idx)
+    from lib import sched
+    inj = sched.YieldInjector(["/secsgem/"])     # the whole package
+    inj.install()
+    try:
+        for rep in range(reps):
+            for cfg in configs:
+                idx += 1
+                if ctx.mine(idx):
+                    _session(ctx, cfg, idx, inj)
+    finally:
+        inj.uninstall()
     ctx.exhaustive["role_x_enable_order_x_initial_control_state"] = True
